@@ -48,6 +48,7 @@ type Cfg struct {
 	NoWriteBE bool `json:"nowbe,omitempty"` // read-only variant B: writeOps=nil, getFileBuffer=nil, level "" (what `serve http` does)
 	TapeMode  bool `json:"tapemode,omitempty"`
 	Foreign   bool `json:"foreign,omitempty"` // compose with the foreign key set (wrong-key experiments)
+	Overwrite bool `json:"overwrite,omitempty"` // drive manager constructed with overwrite=true (what `stfs operation initialize` does): the first writer truncates, no later one may
 }
 
 func (c Cfg) String() string {
@@ -66,6 +67,9 @@ func (c Cfg) String() string {
 	}
 	if c.TapeMode {
 		s += "/tapemode"
+	}
+	if c.Overwrite {
+		s += "/overwrite-manager"
 	}
 	return s
 }
@@ -420,7 +424,7 @@ func NewRig(dir string, cfg Cfg) (*Rig, error) {
 	r.RC, r.WCr = rc, wc
 
 	mt := mtio.MagneticTapeIO{}
-	r.TM = tape.NewTapeManager(r.Drive, mt, cfg.RS, false)
+	r.TM = tape.NewTapeManager(r.Drive, mt, cfg.RS, cfg.Overwrite)
 	r.MP = persisters.NewMetadataPersister(r.DB)
 	if err := r.MP.Open(); err != nil {
 		return nil, fmt.Errorf("persister open: %w", err)
